@@ -77,6 +77,14 @@ def _read(obj, name):
         return Raises(exc)
 
 
+def _child_projection(child):
+    values = _read(child, "values")
+    if not isinstance(values, dict):
+        # not a usable child object (e.g. a plain dict that came out of a persistence file)
+        return {"type": Raises(TypeError(f"child is a {type(child).__name__}")), "description": repr(child)[:80], "values": {}}
+    return {"type": _read(child, "type"), "description": _read(child, "description"), "values": dict(values)}
+
+
 def projection(gateway):
     """Observable node/child/value tree of a real gateway (raw Python values)."""
     out = {}
@@ -89,10 +97,7 @@ def projection(gateway):
             "heartbeat": _read(s, "heartbeat"),
             "sketch_name": _read(s, "sketch_name"),
             "sketch_version": _read(s, "sketch_version"),
-            "children": {
-                cid: {"type": _read(c, "type"), "description": _read(c, "description"), "values": dict(_read(c, "values"))}
-                for cid, c in children.items()
-            } if isinstance(children, dict) else children,
+            "children": {cid: _child_projection(c) for cid, c in children.items()} if isinstance(children, dict) else children,
         }
     return out
 
